@@ -192,3 +192,6 @@ class UnknownNode:
 
     def __ne__(self, other):
         return not (self == other)
+
+    def __hash__(self):
+        return hash((self.__class__, self.ro_uri, self.rw_uri))
